@@ -105,11 +105,11 @@ func (m *Model) Judge(c *Call) *Verdict {
 		return v // every function refuses a call value; nothing in the statements to check beyond the generic monitors
 	}
 	switch c.Fn {
-	case vmcommon.BuiltInFunctionESDTTransfer:
+	case refBuiltInFunctionESDTTransfer:
 		m.judgeESDTTransfer(c, v)
-	case vmcommon.BuiltInFunctionESDTNFTTransfer:
+	case refBuiltInFunctionESDTNFTTransfer:
 		m.judgeNFTTransfer(c, v)
-	case vmcommon.BuiltInFunctionMultiESDTNFTTransfer:
+	case refBuiltInFunctionMultiESDTNFTTransfer:
 		m.judgeMulti(c, v)
 	default:
 		m.judgeOther(c, v)
